@@ -176,21 +176,29 @@ def enumerate_paths(stmts, cap=5000):
             if w:
                 decided = dict((k2, v2) for k2, v2 in decided.items() if not (v2[1] & w) and '<call>' not in w)
                 facts = dict((k2, v2) for k2, v2 in facts.items() if k2 not in w)
-            if isinstance(s, ast.Assign) and len(s.targets) == 1 and isinstance(s.targets[0], ast.Name):
-                nm = s.targets[0].id
+            if isinstance(s, ast.Assign) and all(isinstance(t_, ast.Name) for t_ in s.targets):
                 val = resolve(s.value, env)
                 env = dict(env)
-                # a name that is re-assigned in terms of itself (x = x + 1) is kept opaque
-                if any(isinstance(x, ast.Name) and x.id == nm for x in ast.walk(val)):
-                    env.pop(nm, None)
-                else:
-                    env[nm] = val
-                c = const_of(s.value)
                 facts = dict(facts)
-                if c is not None:
-                    facts[nm] = c
-                elif isinstance(s.value, ast.Name) and s.value.id in facts:
-                    facts[nm] = facts[s.value.id]
+                for t_ in s.targets:            # a = b = value
+                    nm = t_.id
+                    # a name that is re-assigned in terms of itself (x = x + 1) is kept opaque
+                    if any(isinstance(x, ast.Name) and x.id == nm for x in ast.walk(val)):
+                        env.pop(nm, None)
+                    else:
+                        env[nm] = val
+                    c = const_of(s.value)
+                    if c is not None:
+                        facts[nm] = c
+                    elif isinstance(s.value, ast.Name) and s.value.id in facts:
+                        facts[nm] = facts[s.value.id]
+            elif isinstance(s, ast.Assign):
+                # tuple unpacking and the like: the names become opaque again
+                env = dict(env)
+                for t_ in s.targets:
+                    for x in ast.walk(t_):
+                        if isinstance(x, ast.Name):
+                            env.pop(x.id, None)
             elif isinstance(s, (ast.AugAssign, ast.AnnAssign)) and isinstance(s.target, ast.Name):
                 env = dict(env)
                 if isinstance(s, ast.AnnAssign) and s.value is not None:
